@@ -1,0 +1,42 @@
+//go:build verif
+
+package lalr
+
+// Read-only accessors for the verification harness (/verif). Built only with -tags verif.
+
+// VerifTrans returns, for every transition index, (state, symbol or rule, isReduce, target or -1).
+func (lalr *LALR1) VerifTrans() [][4]int {
+	out := make([][4]int, len(lalr.trans))
+	for i, t := range lalr.trans {
+		red := 0
+		v := int(t.sym_or_rule)
+		if t.sym_or_rule&CheckMask != 0 {
+			red = 1
+			v = int(t.sym_or_rule & Mask)
+		}
+		to := t.to
+		if red == 1 {
+			to = -1
+		}
+		out[i] = [4]int{t.q, v, red, to}
+	}
+	return out
+}
+
+// VerifPairs exposes the (x, y) pairs of a relation list.
+func VerifPairs(rs []Relation) [][2]int {
+	out := make([][2]int, len(rs))
+	for i, r := range rs {
+		out[i] = [2]int{r.x, r.y}
+	}
+	return out
+}
+
+// VerifRelations builds a relation list from (x, y) pairs.
+func VerifRelations(pairs [][2]int) []Relation {
+	out := make([]Relation, len(pairs))
+	for i, p := range pairs {
+		out[i] = Relation{Index: i, x: p[0], y: p[1]}
+	}
+	return out
+}
